@@ -391,30 +391,32 @@ theorem opRaises_iff (u : UInfo) (s : Naming) (path key : Str) (op : RawOp) :
 
 /-! ### The de-duplication passes -/
 
+theorem exists_zip_of_mem_right {α β : Type} : ∀ (as : List α) (bs : List β), as.length = bs.length →
+    ∀ b ∈ bs, ∃ a, (a, b) ∈ as.zip bs := by
+  intro as
+  induction as with
+  | nil => intro bs h b hb; cases bs with
+    | nil => cases hb
+    | cons _ _ => simp at h
+  | cons a as ih =>
+    intro bs h b hb
+    cases bs with
+    | nil => cases hb
+    | cons b' bs =>
+      rcases List.mem_cons.1 hb with rfl | hb
+      · exact ⟨a, by simp⟩
+      · obtain ⟨a', ha'⟩ := ih bs (by simpa using h) b hb
+        exact ⟨a', by simp [ha']⟩
+
 theorem dedupOpIds_shape (ids : List Str) :
     ∀ seen, ∀ x ∈ dedupOpIds seen ids, ∃ id ∈ ids, x = id ∨ ∃ n, x = id ++ '_' :: natStr n := by
-  induction ids with
-  | nil => intro _ x hx; cases hx
-  | cons id rest ih =>
-    intro seen x hx
-    simp only [dedupOpIds] at hx
-    split at hx
-    · rcases List.mem_cons.1 hx with h | h
-      · exact ⟨id, by simp, Or.inr ⟨_, h⟩⟩
-      · obtain ⟨i, hi, hh⟩ := ih _ x h
-        exact ⟨i, List.mem_cons_of_mem _ hi, hh⟩
-    · rcases List.mem_cons.1 hx with h | h
-      · exact ⟨id, by simp, Or.inl h⟩
-      · obtain ⟨i, hi, hh⟩ := ih _ x h
-        exact ⟨i, List.mem_cons_of_mem _ hi, hh⟩
+  intro seen x hx
+  obtain ⟨hlen, _, _, hsh⟩ := dedupOpIds_spec seen ids
+  obtain ⟨id, hid⟩ := exists_zip_of_mem_right ids _ hlen.symm x hx
+  exact ⟨id, (List.of_mem_zip hid).1, hsh _ hid⟩
 
-theorem dedupOpIds_length (ids : List Str) : ∀ seen, (dedupOpIds seen ids).length = ids.length := by
-  induction ids with
-  | nil => intro _; rfl
-  | cons id rest ih =>
-    intro seen
-    simp only [dedupOpIds]
-    split <;> simp [ih]
+theorem dedupOpIds_length (ids : List Str) : ∀ seen, (dedupOpIds seen ids).length = ids.length :=
+  fun seen => (dedupOpIds_spec seen ids).1
 
 theorem dedupOpIds_all_alnum (ids : List Str) (seen : List (Str × Nat))
     (h : ∀ id ∈ ids, id.any isAlnumA = true) : ∀ x ∈ dedupOpIds seen ids, x.any isAlnumA = true := by
@@ -450,6 +452,62 @@ theorem finalMethodNames_of_nodup (direct : Bool) (ops : List IROp)
     finalMethodNames direct ops = ops.map (fun o => sanMethod o.opId) := by
   have h' : ((ops.map (·.opId)).map sanMethod).Nodup := by simpa [List.map_map, Function.comp_def] using h
   simp [finalMethodNames, dedupPasses_of_nodup _ _ h', List.map_map, Function.comp_def]
+
+/-- One pass or several: the pass is idempotent, so every further `emit` over the same operation objects changes nothing. -/
+theorem dedupPasses_succ (n : Nat) (ids : List Str) : dedupPasses (n + 1) ids = dedupOpIds [] ids := by
+  rw [dedupPasses, dedupPasses_of_nodup n _ (dedupOpIds_spec [] ids).2.1]
+
+theorem finalMethodNames_eq (direct : Bool) (ops : List IROp) :
+    finalMethodNames direct ops = (dedupOpIds [] (ops.map (·.opId))).map sanMethod := by
+  unfold finalMethodNames emitPasses
+  cases direct <;> simp only [Bool.false_eq_true, if_false, if_true] <;> rw [dedupPasses_succ]
+
+/-- The final method names are pairwise different - every list of operations, one emit pass or two. -/
+theorem finalMethodNames_nodup (direct : Bool) (ops : List IROp) : (finalMethodNames direct ops).Nodup := by
+  rw [finalMethodNames_eq]
+  exact (dedupOpIds_spec [] _).2.1
+
+theorem mem_zip_map_left {α β γ : Type} (f : α → β) : ∀ (l : List α) (r : List γ) (p : α × γ),
+    p ∈ l.zip r → (f p.1, p.2) ∈ (l.map f).zip r := by
+  intro l
+  induction l with
+  | nil => intro r p h; simp at h
+  | cons a l ih =>
+    intro r p h
+    cases r with
+    | nil => simp at h
+    | cons c r =>
+      rcases List.mem_cons.1 (by simpa using h) with rfl | h
+      · simp
+      · have := ih r p h
+        simp [this]
+
+theorem mem_zip_map_right {α β γ : Type} (f : β → γ) : ∀ (l : List α) (r : List β) (p : α × γ),
+    p ∈ l.zip (r.map f) → ∃ b, (p.1, b) ∈ l.zip r ∧ p.2 = f b := by
+  intro l
+  induction l with
+  | nil => intro r p h; simp at h
+  | cons a l ih =>
+    intro r p h
+    cases r with
+    | nil => simp at h
+    | cons c r =>
+      rcases List.mem_cons.1 (by simpa using h) with rfl | h
+      · exact ⟨c, by simp, rfl⟩
+      · obtain ⟨b, hb, he⟩ := ih r p h
+        exact ⟨b, by simp [hb], he⟩
+
+/-- Operation `i` gets the method name of its own id, or of its id with a numeric suffix. -/
+theorem finalMethodNames_shape (direct : Bool) (ops : List IROp) :
+    ∀ p ∈ ops.zip (finalMethodNames direct ops),
+      p.2 = sanMethod p.1.opId ∨ ∃ n, p.2 = sanMethod (sufId p.1.opId n) := by
+  intro p hp
+  rw [finalMethodNames_eq] at hp
+  obtain ⟨x, hx, he⟩ := mem_zip_map_right sanMethod _ _ p hp
+  have := (dedupOpIds_spec [] (ops.map (·.opId))).2.2.2 _ (mem_zip_map_left (·.opId) _ _ _ hx)
+  rcases this with h | ⟨n, h⟩
+  · exact Or.inl (by rw [he]; exact congrArg sanMethod h)
+  · exact Or.inr ⟨n, by rw [he]; exact congrArg sanMethod h⟩
 
 theorem finalMethodNames_valid (direct : Bool) (ops : List IROp)
     (h : ∀ o ∈ ops, o.opId.any isAlnumA = true) :
@@ -620,6 +678,41 @@ theorem count_flatMap_unique {α : Type} (f : α → Str) (m : α → Nat) (l : 
         exact hnd.1 ((by simpa using e : f a = f a₀) ▸ List.mem_map_of_mem h)
       rw [ih hnd.2 h]
       simp [hne]
+
+theorem map_snd_zip_of_length {α β : Type} : ∀ (l : List α) (r : List β), l.length = r.length →
+    (l.zip r).map (·.2) = r := by
+  intro l
+  induction l with
+  | nil => intro r h; cases r with
+    | nil => rfl
+    | cons _ _ => simp at h
+  | cons a l ih =>
+    intro r h
+    cases r with
+    | nil => simp at h
+    | cons b r => simp [ih r (by simpa using h)]
+
+/-- The client of `key` defines the final method name of an operation once per tag of that operation that normalises to
+    `key` - every list of operations (the names are pairwise different, `finalMethodNames_nodup`). -/
+theorem clientMethods_count_zip (u : UInfo) (direct : Bool) (ops : List IROp) (key : Str)
+    (p : IROp × Str) (hp : p ∈ ops.zip (finalMethodNames direct ops)) :
+    (clientMethods u direct ops key).count p.2 = ((opTags p.1).map (normTagKey u)).count key := by
+  rw [clientMethods_eq]
+  simp only [List.map_const']
+  have hnd : ((ops.zip (finalMethodNames direct ops)).map (·.2)).Nodup := by
+    rw [map_snd_zip_of_length _ _ (finalMethodNames_length direct ops).symm]
+    exact finalMethodNames_nodup direct ops
+  have := count_flatMap_unique (fun it : IROp × Str => it.2)
+    (fun it => ((opTags it.1).filter (fun t => normTagKey u t == key)).length) _ hnd p hp
+  rw [this]
+  generalize opTags p.1 = ts
+  induction ts with
+  | nil => rfl
+  | cons t ts ih =>
+    simp only [List.filter_cons, List.map_cons, List.count_cons]
+    by_cases h : normTagKey u t = key
+    · simp [h, ih]
+    · simp [h, ih]
 
 /-- With pairwise distinct sanitised ids, the client of `key` defines the method of `o` once per tag of
     `o` that normalises to `key`. -/
